@@ -22,6 +22,18 @@ def repo_path():
     return os.path.abspath(os.environ.get("VERIF_REPO", "/repo"))
 
 
+def _no_aslr():
+    """preexec_fn: switch address-space randomisation off for the zygote (and so for every child it forks).
+    Memory addresses - and with them which freed address the next object re-uses - are then the same in every
+    zygote instance, so that code under test which keys something on id() behaves the same in a replay."""
+    try:
+        import ctypes
+        libc = ctypes.CDLL(None, use_errno=True)
+        libc.personality(0x0040000)   # ADDR_NO_RANDOMIZE
+    except Exception:
+        pass
+
+
 class ZygotePool:
     def __init__(self, seeds, repo=None):
         self.repo = repo or repo_path()
@@ -42,7 +54,7 @@ class ZygotePool:
             path = os.path.join(self.dir, "z%d.sock" % h)
             errf = open(os.path.join(self.dir, "z%d.err" % h), "wb")
             p = subprocess.Popen([PYTHON, "-c", "from sim import zygote; zygote.main()", path],
-                                 env=e, stdout=subprocess.PIPE, stderr=errf, cwd=VERIF)
+                                 env=e, stdout=subprocess.PIPE, stderr=errf, cwd=VERIF, preexec_fn=_no_aslr)
             errf.close()
             self.procs[h] = p
             self.paths[h] = path
